@@ -736,7 +736,9 @@ func (c *Conn) readRecordOrCCS(expectChangeCipherSpec bool) error {
 				return nil
 			}
 			if !expectChangeCipherSpec {
-				return c.in.setErrorLocked(c.sendAlert(alertUnexpectedMessage))
+				// 数据报可能乱序或丢失：对端的 CCS 先于其握手消息到达（或其握手消息已丢失）。
+				// 丢弃该记录，等待对端超时后重传整个 flight，而不是终止握手。
+				continue
 			}
 			if err := c.in.changeCipherSpec(); err != nil {
 				return c.in.setErrorLocked(c.sendAlert(err.(alert)))
